@@ -142,11 +142,11 @@ struct Layout {
     eoff: Vec<(usize, u64)>,
 }
 
-fn layout(ver: u16, fmt: u8, extra: u64, f: &Forest) -> Layout {
+fn layout(ver: u16, fmt: u8, extra: u64, rootx: u64, f: &Forest) -> Layout {
     let hdr = hdr_size(ver, fmt, extra);
     let mut l = Layout { uoff: vec![0], hdr, ulen: Vec::new(), eoff: Vec::new() };
     for (j, u) in f.iter().enumerate() {
-        let mut pos = hdr + 7;
+        let mut pos = hdr + 7 + rootx;
         for (i, e) in u.iter().enumerate() {
             l.eoff.push((j, pos));
             pos += ent_size(fmt, e);
@@ -283,8 +283,11 @@ const DWO_ID: u64 = 0x1122_3344_5566_7788;
 
 /// unit type of DWARF 5 headers: 1 compile, 4 skeleton, 5 split_compile (the last two carry a dwo_id)
 fn build(ver: u16, fmt: u8, asz: u8, utype: u8, f: &Forest) -> Secs {
-    let extra = if utype == 4 || utype == 5 { 8 } else { 0 };
-    let l = layout(ver, fmt, extra, f);
+    let split = utype == 4 || utype == 5;
+    // DWARF 5: dwo_id in the header; GNU split DWARF 4: DW_AT_GNU_dwo_id (data8) on the root DIE
+    let extra = if split && ver >= 5 { 8 } else { 0 };
+    let rootx = if split && ver < 5 { 8 } else { 0 };
+    let l = layout(ver, fmt, extra, rootx, f);
     let mut info: Vec<u8> = Vec::new();
     let mut abbrev: Vec<u8> = Vec::new();
     let mut code: u64 = 0;
@@ -316,9 +319,16 @@ fn build(ver: u16, fmt: u8, asz: u8, utype: u8, f: &Forest) -> Secs {
         uleb_pad(code, 2, &mut abbrev);
         uleb(0x11, &mut abbrev);
         abbrev.push(if u.is_empty() { 0 } else { 1 });
-        abbrev.extend_from_slice(&[0x03, 0x08, 0, 0]);
+        abbrev.extend_from_slice(&[0x03, 0x08]);
+        if rootx > 0 {
+            abbrev.extend_from_slice(&[0xb1, 0x42, 0x07]); // DW_AT_GNU_dwo_id DW_FORM_data8
+        }
+        abbrev.extend_from_slice(&[0, 0]);
         uleb_pad(code, 2, &mut info);
         info.extend_from_slice(format!("r{:03}\0", j).as_bytes());
+        if rootx > 0 {
+            le(DWO_ID, 8, &mut info);
+        }
         for (i, e) in u.iter().enumerate() {
             let dnext = if i + 1 < u.len() { u[i + 1].depth } else { 0 };
             code += 1;
@@ -595,7 +605,7 @@ fn compare(d: &Dump, ud: &Dump) -> Option<String> {
     None
 }
 
-fn finish(out: Result<w::Dwarf, w::ConvertError>, unf: Option<&Result<Dump, String>>, with_attrs: bool) -> String {
+fn finish(out: Result<w::Dwarf, w::ConvertError>, unf: Option<&Result<Dump, String>>, with_attrs: bool, split: bool) -> String {
     let mut out = match out {
         Ok(o) => o,
         Err(e) => {
@@ -610,6 +620,11 @@ fn finish(out: Result<w::Dwarf, w::ConvertError>, unf: Option<&Result<Dump, Stri
         Ok(s) => s,
         Err(e) => {
             return match unf {
+                // the filtered split conversion SUCCEEDED and produced a reference to a DIE that is never added, while
+                // the unfiltered split conversion reports the reference as a conversion error
+                Some(Err(u)) if split && u.starts_with("convert ") && errname(&e) == "InvalidReference" => {
+                    format!("splitdangling-mismatch {} {}", errname(&e), u.replace(' ', ":"))
+                }
                 Some(Err(_)) => format!("err {}", errname(&e)),
                 _ => format!("write-mismatch {}", errname(&e)),
             }
@@ -695,10 +710,10 @@ pub fn run(t: &[&str]) -> String {
             let secs = build(ver, fmt, asz, 1, &f);
             let dw = load(&secs);
             if tol {
-                finish(filtered(&dw, &req, true), None, true)
+                finish(filtered(&dw, &req, true), None, true, false)
             } else {
                 let unf = unfiltered(&secs);
-                finish(filtered(&dw, &req, false), Some(&unf.dump), true)
+                finish(filtered(&dw, &req, false), Some(&unf.dump), true, false)
             }
         }
         "c1901.split" => {
@@ -720,7 +735,7 @@ pub fn run(t: &[&str]) -> String {
                     Ok(secs) => dump(&secs),
                 },
             };
-            finish(split_filtered(&skel, &dwo, Some(&req)), Some(&unf), false)
+            finish(split_filtered(&skel, &dwo, Some(&req)), Some(&unf), false, true)
         }
         _ => format!("unknown-stream {}", t[0]),
     }
